@@ -745,7 +745,7 @@ class _NoallocStream(Stream):
 
 def prepare(seed, tier):
     """build the standalone no-alloc harness (offline); abort loudly if it does not build."""
-    with runner.Lock("cargo.lock"):
+    with runner.cargo_lock():
         rc, out = runner.sh(["cargo", "build", "--release", "--offline"] + runner.cargo_extra_args(os.path.join(NOALLOC_DIR, "target")),
                             cwd=NOALLOC_DIR, timeout=3600)
     if rc != 0 or not os.path.exists(NOALLOC_BIN):
